@@ -34,7 +34,7 @@ import (
 
 // Req is one HTTP request of a history.
 type Req struct {
-	Header  string   `json:"header"`  // none | basic | neg-empty | neg-notb64 | neg-random | token
+	Header  string   `json:"header"`  // none | basic | neg-empty | neg-notb64 | neg-random | token | token-again (the Authorization value of the last request served on its token, octet for octet; none if there was no such request)
 	Framing string   `json:"framing"` // see framings
 	Inner   string   `json:"inner"`   // apreq | aprep | krberror | garbage | tokid-unknown
 	AP      c01.Case `json:"ap"`
@@ -237,6 +237,10 @@ func Eval(c Case) evid.Verdict {
 		})
 		type sessInfo struct{ user, domain string }
 		sessions := map[string]sessInfo{}
+		var lastServed struct {
+			auth string
+			tok  []byte
+		}
 		for qi, q := range c.Reqs {
 			q.AP.Seed, q.AP.EType, q.AP.Svc = w0.Seed, w0.EType, w0.Svc
 			opts := []func(*service.Settings){service.Logger(log.New(io.Discard, "", 0)), service.DecodePAC(q.AP.DecodePAC)}
@@ -278,6 +282,10 @@ func Eval(c Case) evid.Verdict {
 				req.Header.Set("Authorization", "Negotiate !!!not*base64!!!")
 			case "neg-random":
 				req.Header.Set("Authorization", "Negotiate "+base64.StdEncoding.EncodeToString([]byte(q.Random)))
+			case "token-again":
+				if lastServed.auth != "" {
+					req.Header.Set("Authorization", lastServed.auth)
+				}
 			case "token":
 				var err error
 				tok, m, err = buildToken(q)
@@ -328,9 +336,12 @@ func Eval(c Case) evid.Verdict {
 					if sm != nil && !sm.failNew && sm.lastCook != "" {
 						sessions[sm.lastCook] = sessInfo{got.user, m.CRealm}
 					}
+					lastServed.auth, lastServed.tok = req.Header.Get("Authorization"), tok
 				default:
 					why := "the request carried no acceptable AP-REQ"
-					if q.Header == "token" && q.Inner == "apreq" {
+					if q.Header == "token-again" && lastServed.auth != "" {
+						why = "its token is, octet for octet, one that was accepted earlier in this history (a replayed authenticator is not one the service accepts)"
+					} else if q.Header == "token" && q.Inner == "apreq" {
 						why = "its AP-REQ violates RFC 4120 3.2.3 (" + exp.Reason + ")"
 					}
 					return evid.Fail("served-unauthenticated:"+classify(q), "inner handler ran although %s and no valid session; status %d; %s", why, rec.Code, ctx)
@@ -362,6 +373,19 @@ func Eval(c Case) evid.Verdict {
 					return evid.Fail("refused-valid:"+q.Framing, "request with an acceptable AP-REQ in a standard framing was refused with %d (%s); %s", rec.Code, rec.Header().Get("WWW-Authenticate"), ctx)
 				}
 			}
+			// API level: the replayed token octets through AcceptSecContext under this request's settings
+			if q.Header == "token-again" && lastServed.tok != nil {
+				var st spnego.SPNEGOToken
+				if st.Unmarshal(lastServed.tok) == nil {
+					o := opts
+					if q.AP.ClientAddr != "" {
+						o = append(append([]func(*service.Settings){}, opts...), service.ClientAddress(hostAddr(q.AP.ClientAddr)))
+					}
+					if ok, _, status := spnego.SPNEGOService(kt, o...).AcceptSecContext(&st); ok {
+						return evid.Fail("api-ok-replayed-token", "AcceptSecContext reported success (status %v) for a token that had been accepted before; %s", status, ctx)
+					}
+				}
+			}
 			// API level: a freshly minted copy of the same token through AcceptSecContext
 			if q.Header == "token" {
 				if v := apiLevel(q, kt, opts, exp); !v.OK {
@@ -379,6 +403,9 @@ func Eval(c Case) evid.Verdict {
 func plainName(s string) string { return strings.Join(mint.Name(s), "/") }
 
 func classify(q Req) string {
+	if q.Header == "token-again" {
+		return "replayed-token"
+	}
 	if q.Header != "token" {
 		return q.Header
 	}
@@ -479,6 +506,9 @@ func drawReq(t *rapid.T, seed uint64, et int32, allowCookie bool) Req {
 			q.Mut = fmt.Sprintf("sub:%d:%d", rapid.IntRange(0, 2000).Draw(t, "pos"), rapid.IntRange(0, 255).Draw(t, "val"))
 		}
 	}
+	if allowCookie && q.Header != "token" && rapid.IntRange(0, 2).Draw(t, "again") == 0 {
+		q.Header = "token-again"
+	}
 	if allowCookie {
 		q.Cookie = rapid.SampledFrom([]string{"", "", "last", "last", "forged", "unauth"}).Draw(t, "cookie")
 	}
@@ -542,7 +572,7 @@ func TestProp(t *testing.T) {
 			t.Fatalf("violation")
 		}
 	})
-	r.Rule("history: sequences of 2-6 requests against one handler with session manager in {none, in-memory, failing New, failing Get}: token classes, re-sending, requests carrying the last session cookie or a forged one")
+	r.Rule("history: sequences of 2-6 requests against one handler with session manager in {none, in-memory, failing New, failing Get}: token classes, a served token sent again octet for octet (never acceptable a second time), requests carrying the last session cookie or a forged one")
 	r.Rapid("history", r.N(600, 6000), func(t *rapid.T) {
 		c := Case{SessionMgr: rapid.SampledFrom([]string{"none", "memory", "memory", "memory", "failnew", "failget"}).Draw(t, "sm")}
 		seed, et := rapid.Uint64().Draw(t, "seed"), rapid.SampledFrom(ref.ETypes).Draw(t, "etype")
@@ -578,6 +608,21 @@ func TestProp(t *testing.T) {
 				sm := []string{"none", "memory", "failnew"}[(fi+di)%3]
 				jobs = append(jobs, job{Case{SessionMgr: sm, Reqs: []Req{{Header: "token", Framing: fr, Inner: in, AP: ap}}}})
 			}
+		}
+	}
+	// replays: a served token sent again, octet for octet, under every pairing of PAC decoding, with and without a session
+	for fi, fr := range []string{"init-krb5", "init-mskrb5-first", "init-krb5-ntlm", "resp-krb5", "resp-mskrb5", "raw-krb5"} {
+		for k := 0; k < 16; k++ {
+			et := ref.ETypes[(fi+k)%len(ref.ETypes)]
+			ap := c01.Base(et, r.Seed()*11+uint64(fi*100+k), "HTTP/svc.example.com")
+			ap.Replay = false
+			first, again := ap, ap
+			first.DecodePAC, again.DecodePAC = k&1 != 0, k&2 != 0
+			if k&4 != 0 {
+				first.Apply("pac-good")
+			}
+			jobs = append(jobs, job{Case{SessionMgr: []string{"none", "memory"}[(k>>3)&1], Reqs: []Req{{Header: "token", Framing: fr, Inner: "apreq", AP: first},
+				{Header: "none", AP: again}, {Header: "token-again", AP: again}}}})
 		}
 	}
 	evid.Parallel(len(jobs), 16, func(i int) {
